@@ -15,9 +15,9 @@ package main
 //   [mv,mv,...] | {mv;mv;...} | <name:mv> | m0(mv) | m1(mv)
 // TD grammar:
 //   u8 u16 u32 u64 i8 i16 i32 i64 x32i x32u x64i x64u X32i X32u p32 p64
-//   b s y a<N> T D I  L[*][n](td)  A<N>[*][n](td)  $name  M(td)
+//   b s y a<N> T D I(id)  L[*][n](td)  A<N>[*][n](td)  $name  M(td) Ms(td)
 //   struct def (only as env entry):  {<num>[*][w]:td;...}[|r<num>,...]
-// env:  name=td|name=td|...
+// env:  name[@ifaceid,...]=def&name=def&...   (ifaceids: interfaces of this env the type is assignable to)
 
 import (
 	"encoding/hex"
@@ -36,22 +36,54 @@ type errUncovered string
 func (e errUncovered) Error() string { return string(e) }
 
 type tdEnv struct {
-	defs  map[string]string
-	names map[reflect.Type]string
-	order []string
+	defs   map[string]string
+	names  map[reflect.Type]string
+	infos  map[string]*amino.TypeInfo
+	ifaces map[string]reflect.Type // interface id -> type, for every `I(id)` emitted
+	order  []string
 }
 
-func newEnv() *tdEnv { return &tdEnv{defs: map[string]string{}, names: map[reflect.Type]string{}} }
+func newEnv() *tdEnv {
+	return &tdEnv{defs: map[string]string{}, names: map[reflect.Type]string{},
+		infos: map[string]*amino.TypeInfo{}, ifaces: map[string]reflect.Type{}}
+}
+
+func ifaceID(t reflect.Type) string { return sanitize(t.String()) }
 
 func (e *tdEnv) String() string {
 	ks := append([]string(nil), e.order...)
 	sort.Strings(ks)
 	var sb strings.Builder
+	var ids []string
+	for id := range e.ifaces {
+		ids = append(ids, id)
+	}
+	sort.Strings(ids)
 	for i, k := range ks {
 		if i > 0 {
-			sb.WriteByte('|')
+			sb.WriteByte('&')
 		}
 		sb.WriteString(k)
+		// interfaces (among those occurring in this env) the decoded form is assignable to
+		info := e.infos[k]
+		if info != nil && info.Registered && !strings.HasPrefix(k, "#") {
+			form := info.Type
+			if info.PointerPreferred {
+				form = reflect.PointerTo(form)
+			}
+			first := true
+			for _, id := range ids {
+				if form.AssignableTo(e.ifaces[id]) {
+					if first {
+						sb.WriteByte('@')
+						first = false
+					} else {
+						sb.WriteByte(',')
+					}
+					sb.WriteString(id)
+				}
+			}
+		}
 		sb.WriteByte('=')
 		sb.WriteString(e.defs[k])
 	}
@@ -99,6 +131,7 @@ func (e *tdEnv) define(info *amino.TypeInfo) string {
 		return n
 	}
 	e.defs[n] = "?" // cut recursion
+	e.infos[n] = info
 	e.order = append(e.order, n)
 	var td string
 	if !info.IsAminoMarshaler && info.Type.Kind() == reflect.Struct && info.Type != timeType {
@@ -148,6 +181,9 @@ func (e *tdEnv) tdOf(info *amino.TypeInfo, fopts amino.FieldOptions, top bool) s
 	}
 	rt := info.Type
 	if info.IsAminoMarshaler {
+		if rt.Kind() == reflect.Struct {
+			return "Ms(" + e.tdOf(info.ReprType, fopts, false) + ")"
+		}
 		return "M(" + e.tdOf(info.ReprType, fopts, false) + ")"
 	}
 	switch rt {
@@ -158,7 +194,9 @@ func (e *tdEnv) tdOf(info *amino.TypeInfo, fopts amino.FieldOptions, top bool) s
 	}
 	switch rt.Kind() {
 	case reflect.Interface:
-		return "I"
+		id := ifaceID(rt)
+		e.ifaces[id] = rt
+		return "I(" + id + ")"
 	case reflect.Struct:
 		return "$" + e.define(info)
 	case reflect.Slice, reflect.Array:
@@ -239,8 +277,10 @@ type mvCtx struct {
 
 func hexs(b []byte) string { return "x" + hex.EncodeToString(b) }
 
+// isStructLike: reflect.go defaultValue keeps a nil pointer nil exactly when the
+// pointee's GO kind is struct (time.Time excepted, whose default is non-nil 1970).
 func isStructLike(info *amino.TypeInfo) bool {
-	return info.ReprType.Type.Kind() == reflect.Struct && info.ReprType.Type != timeType
+	return info.Type.Kind() == reflect.Struct && info.Type != timeType
 }
 
 // defaultMV is the MV of reflect.go's defaultValue for a dereferenced,
